@@ -358,6 +358,25 @@ def check_property(pid, tier):
             hx = "".join("%02x" % b for v in (vals or []) for b in v)
             to_replay.append((o, feat, mine_fail, hx, vals is not None, r))
 
+    # bounded native stand-ins (concrete cases executed on the real code; never counted as proved)
+    nb = registry.native_bounded(pid)
+    nb_info = None
+    nb_viol = []
+    if nb:
+        nat = native_replay([(o, "") for o in nb])
+        nb_fail = 0
+        for o in nb:
+            r = nat.get(o["name"], {})
+            bad = [c for c in r.get("fails", []) if TAG_RE.match(c) and pid in TAG_RE.match(c).group(1).split(",")]
+            if r.get("panic"):
+                bad.append("PANIC " + r["panic"])
+            if "checks=" not in r.get("text", "") and not r.get("panic"):
+                undecided.append("%s: native run gave no result" % o["name"])
+            if bad:
+                nb_fail += 1
+                nb_viol.append((o, bad, r))
+        nb_info = {"what": "BOUNDED: concrete cases executed natively on the real code", "cases": len(nb), "failed": nb_fail,
+                   "names": [o["name"] for o in nb][:40]}
     sweep_info = None
     sweep_viol = []
     if pid == "C02":
@@ -418,6 +437,17 @@ def check_property(pid, tier):
         n_viol += 1
         exit_code = 1
         lines.append("VIOLATION property=%s replay=%s" % (pid, path))
+    for o, bad, r in nb_viol:
+        unknown = [c for c in bad if not any(kf_match(k, o["name"], c) for k in known_all)]
+        if not unknown:
+            lines.append("KNOWN-FINDING: property=%s %s [%s]" % (pid, bad[0], o["name"]))
+            continue
+        payload = {"property": pid, "obligation_harness": o["name"], "features": "std", "input_hex": "",
+                   "failed_obligations": [{"clause": c} for c in bad], "native_replay": r, "note": "bounded native case (real code)"}
+        path = common.write_replay(pid, o["name"] + "-native", payload)
+        n_viol += 1
+        exit_code = 1
+        lines.append("VIOLATION property=%s replay=%s" % (pid, path))
     assumptions = standard_assumptions(pid, obls, per_harness)
     assumptions["assumed"] += monitor_notes
     level = "proof"
@@ -430,7 +460,7 @@ def check_property(pid, tier):
             "harnesses": per_harness, "samples": samples,
             "solver_time_s": round(solver_time, 2),
             "bounded_parts": sorted({h["harness"] + ": " + h["bounded"] for h in per_harness if h["bounded"]}),
-            "bounded_native_sweep": sweep_info,
+            "bounded_native_sweep": sweep_info, "bounded_native_cases": nb_info,
             "undecided": undecided, "known_findings_reported": [l for l in lines if l.startswith("KNOWN")],
             "exhaustive": not any(h["bounded"] for h in per_harness),
         },
